@@ -164,6 +164,7 @@ pub fn set_idle_hang(secs: f64) {
 
 pub fn case_started(idx: u64) {
     use std::sync::atomic::Ordering;
+    eprintln!("GV-CASE-START {}", idx);
     CURRENT_IDX.store(idx, Ordering::SeqCst);
     CASE_START_CPU_MS.store((cpu_time() * 1000.0) as u64, Ordering::SeqCst);
 }
